@@ -43,7 +43,7 @@ ASSUMPTIONS = [
     "the Jacobian/residual reference is the object's own unrestricted assemble() at the same state",
 ]
 BOUNDS = {
-    "quick": "3 systems on G1 (V1/O1, V2/O2, V3/O3); lists: all permutations of <= 3 of the 5 names; dicts with <= 2 equations present",
+    "quick": "3 systems on G1 (V1/O1, V2/O2, V3/O3); lists: all permutations of <= 3 of the 5 names; dicts with <= 2 equations present; 1 system on G2 (equations on up to 4 grids): single names and dicts with one equation restricted to every subset of its grids",
     "thorough": "9 systems on G1 (V1..V3 x O1..O3, full dict product 1125 x 2 key forms) + 3 systems on G2 (dicts with <= 2 equations present)",
 }
 MIN_CLASSES = 6
@@ -56,7 +56,7 @@ ROWS_PER_CASE = {"quick": 12, "thorough": 40}
 
 def _systems(tier):
     if tier == "quick":
-        return [("G1", "M1", "V1", "O1"), ("G1", "M1", "V2", "O2"), ("G1", "M1", "V3", "O3")]
+        return [("G1", "M1", "V1", "O1"), ("G1", "M1", "V2", "O2"), ("G1", "M1", "V3", "O3"), ("G2", "M1", "V1", "O2")]
     out = [("G1", "M1", v, o) for v in ("V1", "V2", "V3") for o in ("O1", "O2", "O3")]
     out += [("G2", "M1", "V1", o) for o in ("O1", "O2", "O3")]
     return out
@@ -76,7 +76,7 @@ def row_requests(grid, okey, rich):
     maxperm = 3
     for r in range(0, len(order) + 1):
         for sub in itertools.combinations(order, r):
-            if r <= maxperm:
+            if r <= (maxperm if (rich or grid == "G1") else 1):
                 perms = list(itertools.permutations(sub))
             elif rich:
                 perms = [tuple(reversed(sub))]
@@ -88,7 +88,8 @@ def row_requests(grid, okey, rich):
                     out.append({"t": "list", "eqs": list(p), "key": "op"})
     # dicts
     options = {e: list(_subsets(sorted(spec[e][0]))) for e in order}
-    maxpresent = len(order) if (rich and grid == "G1") else 2
+    # G2 equations live on up to 4 grids: subsets of non-adjacent grids (first and third ...)
+    maxpresent = len(order) if (rich and grid == "G1") else (2 if (rich or grid == "G1") else 1)
     for npres in range(0, maxpresent + 1):
         for present in itertools.combinations(order, npres):
             for choice in itertools.product(*[options[e] for e in present]):
@@ -255,6 +256,7 @@ def run_case(case) -> Outcome:
     cols = col_requests_small(grid, vkey) if case["cols"] == "small" else col_requests_all(grid, vkey)
     nrows_full = ref["storage"][0].shape[0]
 
+    prev = None
     for rreq in case["rows"]:
         for creq in cols:
             for st in ("storage", "given"):
@@ -272,6 +274,7 @@ def run_case(case) -> Outcome:
                     before_obj = es.assembled_equation_indices
                     before = {k: np.array(v, copy=True) for k, v in before_obj.items()}
                     kw = dict(equations=eq_arg, variables=var_arg, state=state)
+                    snap = _snapshot(eq_arg, var_arg, state)
                     r_only = es.assemble(evaluate_jacobian=False, **kw)
                     if not _same_aei(es.assembled_equation_indices, before):
                         bad = ("residual-only assembly changed assembled_equation_indices",
@@ -290,6 +293,12 @@ def run_case(case) -> Outcome:
                     if bad is None and (np.shape(r_only) != re_.shape or not np.array_equal(r_only, re_)):
                         bad = ("residual-only assembly differs from the residual of the full assembly",
                                dict(expected_rows=rows, expected=re_, got=r_only))
+                    if bad is None and snap != _snapshot(eq_arg, var_arg, state):
+                        bad = ("assemble modified one of its arguments", dict())
+                    if bad is None and prev is not None and not (
+                            np.array_equal(prev[0].toarray(), prev[1]) and np.array_equal(prev[2], prev[3])):
+                        bad = ("a later assemble call modified the matrix / vector returned by an earlier one", dict())
+                    prev = (J, Jd.copy(), r, np.array(r, copy=True)) if hasattr(J, "toarray") else None
                     if bad is None and not _same_aei(es.assembled_equation_indices, aei_exp):
                         bad = ("assembled_equation_indices are not the running row ranges per equation in set order",
                                dict(expected=aei_exp, got=dict(es.assembled_equation_indices)))
@@ -313,6 +322,18 @@ def run_case(case) -> Outcome:
                 if len(out.violations) >= 5:
                     return out
     return out
+
+
+def _snapshot(eq_arg, var_arg, state):
+    """Digest of the arguments of assemble (identity of the entries + array bytes)."""
+    if isinstance(eq_arg, dict):
+        e = tuple((id(k) if not isinstance(k, str) else k, tuple(id(g) for g in v)) for k, v in eq_arg.items())
+    elif eq_arg is None:
+        e = None
+    else:
+        e = tuple(id(k) if not isinstance(k, str) else k for k in eq_arg)
+    v = None if var_arg is None else tuple(id(k) if not isinstance(k, str) else k for k in var_arg)
+    return (e, v, None if state is None else state.tobytes())
 
 
 def _identify(Jd, Jfull_cols):
